@@ -55,6 +55,17 @@ pub struct Cfg {
     /// cross-check the mapping ledger with /proc/<pid>/maps at BASELINE / BATCH_END records
     pub proc_maps: bool,
     pub watchdog_ms: u64,
+    /// a burst starts with probability 1/burst_den at an ordinary quantum (1/2 after a marker)
+    pub burst_den: u32,
+    /// addresses of atomic instructions (lock-prefixed, xchg with memory) in the probe's text:
+    /// each gets a breakpoint, and the instant right after the instruction is a scheduling point
+    pub atomic_sites: Vec<u64>,
+    /// the subset of `atomic_sites` that are compare-and-swap instructions: after one of these,
+    /// with probability 1/atomic_extra_den, 1..=atomic_extra_steps further instructions run before
+    /// the scheduling point (the windows that open right behind a lock acquisition)
+    pub cas_sites: Vec<u64>,
+    pub atomic_extra_steps: u32,
+    pub atomic_extra_den: u32,
 }
 
 impl Cfg {
@@ -70,6 +81,11 @@ impl Cfg {
             max_stops: 400_000,
             proc_maps: true,
             watchdog_ms: 2000,
+            burst_den: 40,
+            atomic_sites: Vec::new(),
+            cas_sites: Vec::new(),
+            atomic_extra_steps: 6,
+            atomic_extra_den: 3,
         }
     }
 }
@@ -198,6 +214,11 @@ pub struct Out {
     /// join or drop marker of main
     pub preempt_thread_window: u64,
     pub preempt_main_window: u64,
+    /// scheduling points right after an atomic instruction (total / while >= 2 threads alive)
+    pub atomic_stops: u64,
+    pub atomic_stops_multi: u64,
+    /// single-step bursts started while >= 2 threads were alive
+    pub bursts_multi: u64,
     pub text_out: Vec<u8>,
     pub ledger_mismatch: Option<String>,
     pub sched_mode: &'static str,
@@ -357,6 +378,7 @@ const E_END: u64 = 14;
 const E_BARRIER: u64 = 15;
 const E_TEXT: u64 = 16;
 const E_BURST_END: u64 = 17;
+const E_ATOMIC: u64 = 18;
 
 struct Tracer<'a> {
     cfg: &'a Cfg,
@@ -381,6 +403,10 @@ struct Tracer<'a> {
     set_tid_zero: u64,
     preempt_thread_window: u64,
     preempt_main_window: u64,
+    atomic_stops: u64,
+    atomic_stops_multi: u64,
+    bursts_multi: u64,
+    planted: HashMap<u64, (usize, u8)>,
     records: Vec<Rec>,
     mappings: Vec<Mapping>,
     /// start -> (len, mapping id, start address of the original mapping)
@@ -464,6 +490,10 @@ pub fn run(cfg: &Cfg, dec: &mut Dec) -> Out {
         set_tid_zero: 0,
         preempt_thread_window: 0,
         preempt_main_window: 0,
+        atomic_stops: 0,
+        atomic_stops_multi: 0,
+        bursts_multi: 0,
+        planted: HashMap::new(),
         records: Vec::new(),
         mappings: Vec::new(),
         live: BTreeMap::new(),
@@ -510,6 +540,9 @@ pub fn run(cfg: &Cfg, dec: &mut Dec) -> Out {
         set_tid_zero: t.set_tid_zero,
         preempt_thread_window: t.preempt_thread_window,
         preempt_main_window: t.preempt_main_window,
+        atomic_stops: t.atomic_stops,
+        atomic_stops_multi: t.atomic_stops_multi,
+        bursts_multi: t.bursts_multi,
         text_out: t.text_out,
         ledger_mismatch: t.ledger_mismatch,
         sched_mode: match t.mode {
@@ -678,6 +711,9 @@ impl<'a> Tracer<'a> {
         match self.wait_tid(pid)? {
             Stop::Syscall if self.sysinfo(pid)?.op == SYSCALL_INFO_EXIT => {}
             o => return Err(End::Harness(format!("expected the exit stop of execve, got {o:?}"))),
+        }
+        if !self.cfg.atomic_sites.is_empty() {
+            self.plant_sites()?;
         }
         // scheduling mode of this run
         self.mode = match self.dec.choose(K::Cfg, 6) {
@@ -1072,7 +1108,7 @@ impl<'a> Tracer<'a> {
                         R_JOINING | R_JOINED | R_DROPPING | R_DROPPED => self.th[t].burst_hint = true,
                         R_SPAWNING => self.in_spawn = true,
                         R_SPAWNED => self.in_spawn = false,
-                        R_BASELINE | R_BATCH_END => self.snapshot(kind),
+                        R_BASELINE | R_BATCH_END | R_ROUND_END => self.snapshot(kind),
                         R_QUIESCE => {
                             self.log(t, E_BARRIER, 0, 0, || format!("t{t} waits at the end-of-batch barrier"));
                             return Ok(Act::Barrier);
@@ -1353,22 +1389,80 @@ impl<'a> Tracer<'a> {
 
     // ---- running a thread ------------------------------------------------------------------
 
+    /// Replace the first byte of every atomic-instruction site by `int3`.
+    fn plant_sites(&mut self) -> R<()> {
+        let cfg: &'a Cfg = self.cfg;
+        for (i, &addr) in cfg.atomic_sites.iter().enumerate() {
+            let w = self.peek(self.pid, addr)?;
+            self.planted.insert(addr, (i, (w & 0xff) as u8));
+        }
+        for &addr in &cfg.atomic_sites {
+            self.poke_byte(self.pid, addr, 0xcc)?;
+        }
+        Ok(())
+    }
+
+    fn poke_byte(&self, tid: i32, addr: u64, b: u8) -> R<()> {
+        let w = self.peek(tid, addr)?;
+        self.ptrace(libc::PTRACE_POKETEXT, tid, addr as usize, ((w & !0xff) | u64::from(b)) as usize)?;
+        Ok(())
+    }
+
+    /// The thread's next instruction is the atomic instruction at planted site `addr` (`rewind`:
+    /// it has just executed the `int3` there).  Execute the real instruction with one single
+    /// step and put the breakpoint back.  Ok(None) = done, the thread is right after the atomic.
+    fn step_over_site(&mut self, t: usize, addr: u64, rewind: bool) -> R<Option<End>> {
+        let tid = self.th[t].tid;
+        let (idx, orig) = self.planted[&addr];
+        if rewind {
+            let mut regs = self.getregs(tid)?;
+            regs.rip = addr;
+            self.setregs(tid, &regs)?;
+        }
+        self.poke_byte(tid, addr, orig)?;
+        self.ptrace(libc::PTRACE_SINGLESTEP, tid, 0, 0)?;
+        let stop = self.wait_tid(tid)?;
+        self.poke_byte(tid, addr, 0xcc)?;
+        match stop {
+            Stop::Trap => {}
+            Stop::Signal(sig) => return Ok(Some(self.crash(t, sig)?)),
+            o => return Err(End::Harness(format!("unexpected stop {o:?} while stepping over an atomic instruction"))),
+        }
+        self.single_steps += 1;
+        self.atomic_stops += 1;
+        if self.live_threads() >= 2 {
+            self.atomic_stops_multi += 1;
+        }
+        self.trace.mix((t as u64) << 8 | E_ATOMIC, idx as u64);
+        self.trace.ev(|| format!("t{t} executed atomic instruction a{idx}"));
+        Ok(None)
+    }
+
+    fn live_threads(&self) -> usize {
+        self.th.iter().filter(|x| !matches!(x.st, St::Dead)).count()
+    }
+
     /// The thread is stopped at a syscall-exit stop or in user code: run it to its next
-    /// syscall-entry stop, or for k single steps.
+    /// syscall-entry stop, to its next atomic instruction (when sites are planted), or for k
+    /// single steps.
     fn run_on(&mut self, t: usize) -> R<Option<End>> {
         let tid = self.th[t].tid;
+        let cfg: &'a Cfg = self.cfg;
         let hint = std::mem::replace(&mut self.th[t].burst_hint, false);
         let mut k = 0u32;
-        if self.bursts < self.cfg.max_bursts && self.cfg.max_burst_len > 0 {
-            let (num, den) = if hint { (1, 2) } else { (1, 40) };
+        if self.bursts < cfg.max_bursts && cfg.max_burst_len > 0 {
+            let (num, den) = if hint { (1, 2) } else { (1, cfg.burst_den) };
             if self.dec.chance(K::Sched, num, den) {
                 // half of the bursts are short: the windows that matter are close to the markers
                 k = if self.dec.chance(K::Sched, 1, 2) {
-                    1 + self.dec.choose(K::Sched, self.cfg.max_burst_len)
+                    1 + self.dec.choose(K::Sched, cfg.max_burst_len)
                 } else {
-                    1 + self.dec.choose(K::Sched, self.cfg.max_burst_len.min(64))
+                    1 + self.dec.choose(K::Sched, cfg.max_burst_len.min(64))
                 };
                 self.bursts += 1;
+                if self.live_threads() >= 2 {
+                    self.bursts_multi += 1;
+                }
                 self.log(t, E_BURST, u64::from(k), u64::from(hint), || format!("t{t} runs {k} single steps{}", if hint { " (window after a marker)" } else { "" }));
             }
         }
@@ -1376,8 +1470,15 @@ impl<'a> Tracer<'a> {
         loop {
             let mut req = libc::PTRACE_SYSCALL;
             if done < k {
-                // a single step would run through a system call without an entry stop: look ahead
                 let rip = self.getregs(tid)?.rip;
+                if self.planted.contains_key(&rip) {
+                    if let Some(end) = self.step_over_site(t, rip, false)? {
+                        return Ok(Some(end));
+                    }
+                    done += 1;
+                    continue;
+                }
+                // a single step would run through a system call without an entry stop: look ahead
                 let w = self.peek(tid, rip).unwrap_or(0);
                 if w & 0xffff != 0x050f {
                     req = libc::PTRACE_SINGLESTEP;
@@ -1397,6 +1498,27 @@ impl<'a> Tracer<'a> {
                 Stop::Trap if req == libc::PTRACE_SINGLESTEP => {
                     done += 1;
                     self.single_steps += 1;
+                }
+                Stop::Trap => {
+                    // a planted breakpoint: the thread is about to execute an atomic instruction
+                    let addr = self.getregs(tid)?.rip.wrapping_sub(1);
+                    if !self.planted.contains_key(&addr) {
+                        return Err(End::Harness(format!("trap at {addr:#x}, which is no planted site")));
+                    }
+                    if let Some(end) = self.step_over_site(t, addr, true)? {
+                        return Ok(Some(end));
+                    }
+                    self.th[t].st = St::User;
+                    // right after the atomic instruction: a scheduling point, at once or a few
+                    // instructions later (the windows that open behind a lock acquisition)
+                    if self.live_threads() >= 2 && cfg.atomic_extra_steps > 0 && cfg.cas_sites.binary_search(&addr).is_ok() && self.dec.chance(K::Sched, 1, cfg.atomic_extra_den) {
+                        k = 1 + self.dec.choose(K::Sched, cfg.atomic_extra_steps);
+                        done = 0;
+                        self.bursts_multi += 1;
+                        self.log(t, E_BURST, u64::from(k), 2, || format!("t{t} runs {k} more steps after the atomic instruction"));
+                        continue;
+                    }
+                    return Ok(None);
                 }
                 Stop::Syscall => {
                     let si = self.sysinfo(tid)?;
@@ -1485,6 +1607,7 @@ pub fn rec_name(kind: u32) -> &'static str {
         R_LEDGER => "LEDGER",
         R_DONE => "DONE",
         R_BAD_ARGS => "BAD_ARGS",
+        R_ROUND_END => "ROUND_END",
         _ => "?",
     }
 }
